@@ -435,3 +435,45 @@ Section Scope.
     - apply WF_vector; [reflexivity|]. fa. rewrite forallb_forall in Himgs, Hix. apply WF_image; auto.
   Qed.
 End Scope.
+
+(** * the document *)
+Lemma forallb_app' : forall {A} (p : A -> bool) a b, forallb p (a ++ b) = forallb p a && forallb p b.
+Proof. intros. apply forallb_app. Qed.
+
+Lemma scope_of_ok : forall exts, extensions_ok exts = true ->
+  scope_ok None (scope_of exts) = true /\ scope_ok (Some (scope_of exts)) (scope_of exts) = true /\
+  len (scope_of exts) <= 65535.
+Proof.
+  intros exts H. unfold extensions_ok in H.
+  apply andb_prop in H. destruct H as [H Hlen]. apply andb_prop in H. destruct H as [Hd Hp].
+  assert (Hall : forallb decl_ok (scope_of exts) = true).
+  { unfold scope_of. rewrite forallb_app.
+    change (forallb decl_ok [mkXNs None E57_URI]) with true. rewrite andb_true_r.
+    clear -Hd. induction exts as [|e r IH]; [reflexivity|].
+    cbn [forallb map] in *. apply andb_prop in Hd. destruct Hd as [He Hr].
+    unfold ext_decl in He. rewrite He, IH by exact Hr. reflexivity. }
+  unfold scope_ok. rewrite Hall, Hp. cbn [own_decls]. rewrite scope_eqb_refl'. repeat split.
+  apply N.ltb_lt in Hlen. unfold scope_of, len in *. rewrite app_length, map_length. cbn [List.length]. lia.
+Qed.
+
+Theorem tree_of_wf : forall m,
+  writer_meta_ok m = true -> meta_xml_ok m = true -> wf_doc (tree_of m) = true.
+Proof.
+  intros m Hw Hx. unfold writer_meta_ok in Hw. unfold meta_xml_ok in Hx. cbv zeta in Hx.
+  repeat match goal with H : (_ && _) = true |- _ => apply andb_prop in H; destruct H end.
+  match goal with H : extensions_ok _ = true |- _ => destruct (scope_of_ok _ H) as (Hs0 & Hs1 & Hlen) end.
+  destruct (WF_root (fm_extensions m) Hs1 m) as [ch [Hch Hwf]]; try assumption; try reflexivity.
+  destruct (lines_ok (fm_extensions m) ch Hwf) as [Hadj Hnodes].
+  destruct (nodes_ok (fm_extensions m) (lines ch) Hnodes) as [Hall Hsum].
+  unfold wf_doc, tree_of. cbn [xd_children]. rewrite Hch. unfold t_struct, el.
+  cbn [forallb is_text negb filter is_element List.length Nat.eqb fold_right andb].
+  rewrite wf_node_elem, decl_count_elem.
+  cbn [xn_local ename xn_ns own_decls or_default].
+  rewrite Hs0, (e57_prefix (fm_extensions m)), Hadj, wf_children_forallb, Hall, Hsum.
+  change (ncname (B "e57Root")) with true.
+  cbn [andb]. rewrite N.add_0_r, N.add_0_r.
+  change (forallb (attr_ok (scope_of (fm_extensions m))) [ty (B "Structure")] && distinct_attrs [ty (B "Structure")]) with true.
+  cbn [andb]. apply N.leb_le. exact Hlen.
+Qed.
+
+Print Assumptions tree_of_wf.
